@@ -48,6 +48,7 @@ type gen struct {
 	keys []string // keys used by the current path (documents are generated for them)
 	vars []string
 	strs []string // string literals used by the path
+	reuseTop, reuseFilter []string // expressions generated so far for this path, by scope
 }
 
 var keyPool = []string{"a", "b", "c", "d", "x", "key", "value", "id", "é", "a b"}
@@ -348,7 +349,31 @@ func (g *gen) accessorExpr(sc scope) string {
 
 var arithOps = []string{"+", "-", "*", "/", "%"}
 
+// expr returns an expression; now and then it repeats one generated earlier for the same path
+// (the same sub-expression evaluated twice, in a different place, is what a cache keyed too
+// coarsely gets wrong).
 func (g *gen) expr(sc scope) string {
+	pool := &g.reuseTop
+	if sc.inFilter {
+		pool = &g.reuseFilter
+	}
+	if !sc.inSubscript {
+		if len(*pool) > 0 && g.pct(10) {
+			return (*pool)[g.r.Intn(len(*pool))]
+		}
+	}
+	e := g.expr0(sc)
+	if !sc.inSubscript && len(e) < 60 {
+		*pool = append(*pool, e)
+		if !sc.inFilter {
+			// an expression without @ is also valid inside a filter
+			g.reuseFilter = append(g.reuseFilter, e)
+		}
+	}
+	return e
+}
+
+func (g *gen) expr0(sc scope) string {
 	if sc.depth > 0 {
 		switch g.choose(12, g.p.wArith, g.p.wArith/2+1) {
 		case 1:
@@ -475,6 +500,7 @@ func (g *gen) predOperand(sc scope) string {
 // path returns the text of a random path.
 func (g *gen) path() string {
 	g.keys, g.vars, g.strs = nil, nil, nil
+	g.reuseTop, g.reuseFilter = nil, nil
 	sc := scope{depth: 1 + g.r.Intn(g.p.maxDepth)}
 	var body string
 	if g.pct(g.p.predPct) {
@@ -497,7 +523,7 @@ var floatPool = []float64{0, 1, -1, 2, 3, 10, 0.5, 1.5, 2.5, -2.5, -0.5, 3.7, 1e
 	9007199254740992, 9007199254740993, 9223372036854775807, 9223372036854775808, -9223372036854775808, 1e19, 1e21, 1e308, 5e-324, 1e-7, 0.1, 100, 7, 4611686018427387904}
 var jnumPool = []string{"0", "1", "-1", "2", "3", "10", "0.5", "1.5", "2.5", "-2.5", "1e2", "1E2", "1E+2", "-1E3", "5E-1", "1.0E2", "1e+2", "0.0", "-0.0", "2.9999999999", "0.9999999999", "1.50", "100e-2", "2147483647", "2147483648", "-2147483649",
 	"9007199254740993", "9223372036854775807", "9223372036854775808", "-9223372036854775808", "-9223372036854775809", "1e19", "1e308", "5e-324", "1e-7", "0.1", "100", "1.0", "-0", "4611686018427387904", "12345678901234567890"}
-var jnumWeird = []string{"1e400", "-1e400", "1e-400", "1e999999", "123456789012345678901234567890"}
+var jnumWeird = []string{"1e400", "-1e400", "1e-400", "1e999999", "123456789012345678901234567890", bigDigits, "-" + bigDigits, bigDigits + ".5"}
 
 func (g *gen) number(repr int) any {
 	if g.p.weird && g.pct(3) {
